@@ -83,6 +83,19 @@ Theorem C10_value_range : forall n a, c10_wf n a -> c10_val a < 2 ^ c10_spec_wid
 Proof. exact P_value_range. Qed.
 Print Assumptions C10_value_range.
 
+(* todouble returns m * 2^e with m < 2^48 (an exactly representable double; the scaling by ldexp is exact),
+   below the represented value and within relative error 2^-32 of it, for EVERY magnitude *)
+Theorem C10_todouble : forall n a, c10_wf n a ->
+  let '(m, e) := c10_todouble a in
+  m < 2 ^ 48 /\ m * 2 ^ e <= c10_val a /\ (c10_val a - m * 2 ^ e) * 2 ^ 32 < c10_val a \/ c10_val a = m * 2 ^ e /\ m < 2 ^ 48.
+Proof. exact P_todouble. Qed.
+Print Assumptions C10_todouble.
+
+(* print: 4n hex characters which, read back, give the represented value *)
+Theorem C10_print : forall n a, c10_wf n a -> c10_hexval (c10_print a) = c10_val a /\ length (c10_print a) = (4 * n)%nat.
+Proof. exact P_print. Qed.
+Print Assumptions C10_print.
+
 (* non-vacuity: concrete non-trivial operands satisfy the hypotheses and exercise carries *)
 Example C10_nonvacuous :
   c10_wf 2 [65535; 65535] /\ c10_wf 2 [1; 0] /\ c10_add [65535; 65535] [1; 0] = [0; 0] /\
